@@ -50,8 +50,20 @@ func entriesFor(side ref.Side) []entryCfg {
 		{"readmessage", drive.Opts{Entry: "readmessage", Side: side}},
 		{"readdata", drive.Opts{Entry: "readdata", Side: side}},
 		{"nextreader", drive.Opts{Entry: "nextreader", Side: side}},
+		// entry points that SKIP messages: Discard after one byte, and the helpers that drop the unwanted opcode
+		{"reader-discard", drive.Opts{Entry: "reader", Side: side, Discard: discardAll}},
+		{"readtext", drive.Opts{Entry: "readtext", Side: side}},
+		{"readbinary", drive.Opts{Entry: "readbinary", Side: side}},
 	}
 }
+
+var discardAll = func() map[int]int {
+	m := map[int]int{}
+	for i := 0; i < 64; i++ {
+		m[i] = i % 2
+	}
+	return m
+}()
 
 func isPrefix(got, base []ref.Event) string {
 	if len(got) > len(base) {
@@ -189,7 +201,7 @@ func subCutEnum() mon.Sub {
 				offs = append(offs, o)
 			}
 			if cutStream(c, sh, side, offs, []int{0, 1, 2}) {
-				c.Sample(map[string]interface{}{"frames": gen.ShapesKey(sh), "side": side, "offsets": "every byte offset", "flavours": "EOF, data+EOF, injected error", "entries": 5})
+				c.Sample(map[string]interface{}{"frames": gen.ShapesKey(sh), "side": side, "offsets": "every byte offset", "flavours": "EOF, data+EOF, injected error", "entries": 8})
 			}
 		},
 	}
@@ -459,7 +471,7 @@ func main() {
 	mon.Main(&mon.Spec{
 		Property: "C16",
 		Level:    "fault_enumeration",
-		Rule: "fault enumeration: (a) every valid complete frame stream up to depth 3 (quick) / 4 (thorough) on both sides, cut at EVERY byte offset in three flavours (EOF, final data together with EOF, injected transport error) through Reader, Reader+ControlFrameHandler, ReadMessage, ReadData and NextReader, plus random longer streams at 40 random offsets; oracle = the uncut run of the same stream (events must be a prefix), the message-boundary set of the reference reassembly (clean EOF only there), control payloads never shortened (callbacks, collected messages, pongs on the wire); " +
+		Rule: "fault enumeration: (a) every valid complete frame stream up to depth 3 (quick) / 4 (thorough) on both sides, cut at EVERY byte offset in three flavours (EOF, final data together with EOF, injected transport error) through Reader, Reader+ControlFrameHandler, Reader+Discard, ReadMessage, ReadData, Read*Text, Read*Binary and NextReader, plus random longer streams at 40 random offsets; oracle = the uncut run of the same stream (events must be a prefix), the message-boundary set of the reference reassembly (clean EOF only there), control payloads never shortened (callbacks, collected messages, pongs on the wire); " +
 			"(b) upgrade requests and 101 responses cut at every offset of the head in the three flavours: error, no 101, no buffer; (c) every writer history of depth 2 (quick) / 3 (thorough) over the 30-op alphabet + Flush for 4 configurations with the destination failing at every call index as plain error or short write (0/1/3 bytes) + error, then 7 follow-up operations: each returns the error (ReadFrom's return is left open) and the destination sees no further call. distinct = (entry, cut frame kind/position, flavour, boundary, stream shape) / (config, failing call, mode, history).",
 		Assumptions: []string{"the uncut run itself is checked by C04", "ReadFrom's return value after a failure is OPEN (the statement names writes and flushes); 'no further bytes' is enforced for it too"},
 		Subs:        []mon.Sub{subCutEnum(), subCutRandom(), subHandshakeCut(), subWriterFail()},
